@@ -35,6 +35,10 @@ type Config struct {
 	G     env.Geometry `json:"g"`
 	Rules []RuleSpec   `json:"rules"`
 	T0    int64        `json:"t0"`
+	// ReloadT > 0: the alphabet has a reload that replaces rule #0 by one whose threshold is toggled
+	// between its own and ReloadT; statistic parameters unchanged, so the admitted tokens already in
+	// its window keep counting
+	ReloadT float64 `json:"reload_threshold,omitempty"`
 }
 
 func (c Config) String() string {
@@ -80,13 +84,17 @@ type admit struct {
 }
 
 type opDef struct {
-	req   bool
-	res   string
-	batch uint32
-	tick  int64
+	reload bool
+	req    bool
+	res    string
+	batch  uint32
+	tick   int64
 }
 
 func (o opDef) String() string {
+	if o.reload {
+		return "reload(#0,threshold toggled)"
+	}
 	if o.req {
 		return fmt.Sprintf("req(%s,%d)", o.res, o.batch)
 	}
@@ -101,6 +109,7 @@ type scen struct {
 	adm   []admit
 	now   int64
 	lcm   int64
+	th    []float64 // thresholds in force
 }
 
 func (s *scen) Name() string        { return s.cfg.String() }
@@ -122,7 +131,9 @@ func (s *scen) Reset() {
 	s.rules = s.rules[:0]
 	s.geoms = s.geoms[:0]
 	s.lcm = int64(s.cfg.G.ArrIntervalMs)
+	s.th = s.th[:0]
 	for i, r := range s.cfg.Rules {
+		s.th = append(s.th, r.T)
 		fr := &flow.Rule{ID: fmt.Sprint(i), Resource: "a", TokenCalculateStrategy: flow.Direct, ControlBehavior: flow.Reject,
 			Threshold: r.T, StatIntervalInMs: r.Interval}
 		if r.Assoc {
@@ -162,6 +173,23 @@ func (s *scen) winSum(i int, now int64) int64 {
 
 func (s *scen) Apply(i int) (string, string) {
 	o := s.ops[i]
+	if o.reload {
+		nr := *s.rules[0]
+		if s.th[0] == s.cfg.Rules[0].T {
+			s.th[0] = s.cfg.ReloadT
+		} else {
+			s.th[0] = s.cfg.Rules[0].T
+		}
+		nr.Threshold = s.th[0]
+		s.rules[0] = &nr
+		if _, err := flow.LoadRules(s.rules); err != nil {
+			return "", "reload failed: " + err.Error()
+		}
+		if len(flow.GetRulesOfResource("a")) != len(s.rules) {
+			return "", "after the reload the resource does not have all its rules"
+		}
+		return "", ""
+	}
 	if !o.req {
 		s.now += o.tick
 		env.Clock.SetMs(s.now)
@@ -173,7 +201,7 @@ func (s *scen) Apply(i int) (string, string) {
 	if o.res == "a" {
 		for ri := range s.rules {
 			sum := s.winSum(ri, s.now)
-			if float64(sum)+float64(o.batch) > s.cfg.Rules[ri].T {
+			if float64(sum)+float64(o.batch) > s.th[ri] {
 				blockedBy, trigVal = ri, sum
 				break
 			}
@@ -206,7 +234,7 @@ func (s *scen) Apply(i int) (string, string) {
 		}
 		e.Exit()
 		if blockedBy >= 0 {
-			return obs, fmt.Sprintf("t=%d %v: admitted although rule #%d (T=%v, interval=%d) already holds %d tokens in its window", s.now, o, blockedBy, s.cfg.Rules[blockedBy].T, s.cfg.Rules[blockedBy].Interval, trigVal)
+			return obs, fmt.Sprintf("t=%d %v: admitted although rule #%d (T=%v, interval=%d) already holds %d tokens in its window", s.now, o, blockedBy, s.th[blockedBy], s.cfg.Rules[blockedBy].Interval, trigVal)
 		}
 		s.adm = append(s.adm, admit{s.now, o.res, int64(o.batch)})
 	}
@@ -223,6 +251,7 @@ func (s *scen) sums() []int64 {
 
 func (s *scen) Key() string {
 	var b strings.Builder
+	fmt.Fprintf(&b, "%v|", s.th)
 	if s.now < 3*s.lcm {
 		fmt.Fprintf(&b, "abs%d|", s.now)
 	} else {
@@ -275,6 +304,9 @@ func (s *scen) Key() string {
 
 func mkOps(cfg Config) []opDef {
 	ops := []opDef{{req: true, res: "a", batch: 1}, {req: true, res: "a", batch: 2}, {req: true, res: "a", batch: 4}}
+	if cfg.ReloadT > 0 {
+		ops = append(ops, opDef{reload: true})
+	}
 	assoc := false
 	for _, r := range cfg.Rules {
 		if r.Assoc {
@@ -330,19 +362,24 @@ func configs(quick bool) []Config {
 					if quick && (t == 0.5 || t == 3) && k != 0 {
 						continue
 					}
-					out = append(out, Config{g.g, []RuleSpec{{t, k, false}}, t0})
+					out = append(out, Config{G: g.g, Rules: []RuleSpec{{t, k, false}}, T0: t0})
 				}
 			}
 			// two rules on the resource: list order decides who is reported
 			for _, k := range g.kinds[1:] {
-				out = append(out, Config{g.g, []RuleSpec{{3, 0, false}, {2, k, false}}, t0})
-				out = append(out, Config{g.g, []RuleSpec{{2, k, false}, {3, 0, false}}, t0})
+				out = append(out, Config{G: g.g, Rules: []RuleSpec{{3, 0, false}, {2, k, false}}, T0: t0})
+				out = append(out, Config{G: g.g, Rules: []RuleSpec{{2, k, false}, {3, 0, false}}, T0: t0})
 			}
+			// a reload of the (modified) rule in the middle of the history
+			for _, k := range []uint32{g.kinds[0], g.kinds[1], g.kinds[5]} {
+				out = append(out, Config{G: g.g, Rules: []RuleSpec{{2, k, false}}, T0: t0, ReloadT: 3})
+			}
+			out = append(out, Config{G: g.g, Rules: []RuleSpec{{3, g.kinds[5], false}, {2, 0, false}}, T0: t0, ReloadT: 1})
 			// associated-resource rules (the referenced resource has its own traffic)
 			for _, k := range g.kinds {
-				out = append(out, Config{g.g, []RuleSpec{{2, k, true}}, t0})
+				out = append(out, Config{G: g.g, Rules: []RuleSpec{{2, k, true}}, T0: t0})
 				if !quick {
-					out = append(out, Config{g.g, []RuleSpec{{2, k, true}, {3, 0, false}}, t0})
+					out = append(out, Config{G: g.g, Rules: []RuleSpec{{2, k, true}, {3, 0, false}}, T0: t0})
 				}
 			}
 		}
